@@ -158,18 +158,28 @@ fn timeout_for<S: Sc>(idx: u8) -> u64 {
     if S::KIND != Kind::Polling {
         0
     } else if HAVE_CLOCK {
-        [0u64, 1, 1_000_000, 10_000_000_000, u64::MAX][idx as usize % 5]
+        [0u64, 1, 1_000_000, 10_000_000_000, u64::MAX, u64::MAX - 1][idx as usize % 6]
     } else {
         [0u64, u64::MAX][idx as usize % 2]
     }
 }
 
 fn tjson(t: u64) -> Value {
-    if t == u64::MAX { json!("max") } else { json!(t) }
+    match t {
+        u64::MAX => json!("max"),
+        x if x == u64::MAX - 1 => json!("u64_max_seconds"),
+        x if x == u64::MAX - 2 => json!("2_pow_64_ns"),
+        x => json!(x),
+    }
 }
 
 fn tfrom(v: &Value) -> Option<u64> {
-    if v.as_str() == Some("max") { Some(u64::MAX) } else { json_u64(v) }
+    match v.as_str() {
+        Some("max") => Some(u64::MAX),
+        Some("u64_max_seconds") => Some(u64::MAX - 1),
+        Some("2_pow_64_ns") => Some(u64::MAX - 2),
+        _ => json_u64(v),
+    }
 }
 
 // ---------------------------------------------------------------------------------------------
@@ -267,7 +277,7 @@ fn meta_strategy(kind: Kind, max_len: usize) -> impl Strategy<Value = MetaCase> 
     (
         history_strategy(kind, max_len),
         history_strategy(kind, max_len / 2 + 1),
-        0u8..5,
+        0u8..6,
         prop::collection::vec((any::<u16>(), any::<u8>(), any::<u8>(), any::<u8>(), any::<u8>()), 0..12),
     )
         .prop_map(|(hist, suffix, timeout_idx, inserts)| MetaCase { hist, suffix, timeout_idx, inserts })
@@ -972,7 +982,7 @@ pub fn run_c17(ctx: &Ctx) -> Report {
 fn replay_generic<S: Sc>(case: &Value) -> Option<CheckResult> {
     let kind = case["kind"].as_str()?;
     let t = case.get("timeout_ns").and_then(tfrom).unwrap_or(0);
-    if S::KIND == Kind::Polling && !HAVE_CLOCK && t != 0 && t != u64::MAX {
+    if S::KIND == Kind::Polling && !HAVE_CLOCK && t != 0 && t < u64::MAX - 2 {
         return None;
     }
     match kind {
